@@ -31,6 +31,7 @@ import Sds.Proofs.Glue
 import Sds.Proofs.GenEqIdx
 import Sds.Proofs.GenEqBv
 import Sds.Proofs.GenEqLoop2
+import Sds.Proofs.GenEqConstr
 
 namespace Sds.C01
 open Sds Outcome IterProofs
@@ -399,5 +400,14 @@ theorem select_unchecked_as_translated_from_source (m : Mode) (tr : Tr) (s : Sel
     (hr : rank < U64) (hv : v.data.size < U64) :
     Generated.gen_SelectSupport_select_unchecked m tr s v rank = s.selectU tr m v rank :=
   GenEq.select_unchecked_eq m tr s v rank hr hv
+
+/-! **`RankSupport::new` as translated from the source on this run** (`Generated/FnsConstr.lean`): the two nested `for`
+loops (512-bit blocks, 64-bit words; `block_ones << (word * 9)` packed into the relative ranks, `low_set(63)` mask, the
+running absolute count) equal the model's `RankSup.build`, whose samples the rank theorems above are about, on every
+size-exact vector of fewer than 2^64 − 512 bits. -/
+theorem rank_support_new_as_translated_from_source (m : Mode) (v : RawVec)
+    (hwf : v.data.size = (v.len + 63) / 64) (hl : v.len + 512 < U64) :
+    Generated.gen_RankSupport_new m v = ok (RankSup.build v) :=
+  GenEq.rank_support_new_eq m v hwf hl
 
 end Sds.C01
